@@ -1,6 +1,13 @@
 import Proofs.Machine.Total
 import DeltaModel.Generated.PanicInventory
 import DeltaModel.PanicBaseline
+import Props.C05
+import Props.C06
+import Props.C07
+import Props.C08
+import Props.C15
+import Props.C16
+import Props.C17
 /-!
 C03 — delta never crashes or hangs, whatever bytes and options it is given.
 
@@ -11,7 +18,9 @@ ac13fa5, 20166a8, 19be116, 26f1e1a: the model produced the witnesses `@@ foo @@`
 number, `diff --git ` without paths, `--- "`, a combined-diff line with a multi-byte prefix, a
 `+++ ` line met in a submodule state.) The loops of the model are structural recursions over the
 input, so the run also terminates. Panic freedom of wrapping / alignment / ANSI parsing / line
-numbers / grep / blame is stated in the files of C07, C06, C08, C05, C16, C17.
+numbers / grep / blame is proved in the files of C07, C06, C08, C05, C16, C17 and collected at the
+end of this file (`Components`): those theorems are obligations of this check too, so a change that
+makes one of these components panic or loop breaks C03's proof as well as the component's own.
 -/
 namespace C03
 open Machine Headers
@@ -60,3 +69,76 @@ exactly the reviewed ones (a new `unwrap`, index expression, `panic!` … breaks
 theorem inventory_reviewed : Generated.PanicInventory.counts = PanicBaseline.counts := by decide
 
 end C03
+
+/-! ## Components: panic freedom and termination of the code the line state machine calls
+
+Each statement is the theorem of the component's own property file, restated here because a panic
+or a non-terminating loop in any of them is a violation of C03 whatever else it breaks. The models
+keep every Rust panic point (slice, index, `unwrap`, `usize` subtraction / overflow in builds with
+overflow checks, `unreachable!`) as an explicit `Except` error branch and every loop as a fuel-bounded
+iteration whose fuel is proved sufficient, so "returns `.ok`" means: no panic, and it terminates. -/
+namespace C03.Components
+
+/-- `src/edits.rs tokenize`: for every line and every ordered, disjoint, in-range list of regex
+match spans the tokeniser returns (no slice out of range, no char-boundary panic). -/
+theorem tokenize_never_panics (line : List Edits.G) (spans : List (Nat × Nat))
+    (h : Edits.SpansOk line.length 0 spans) : ∃ toks, Edits.tokenize line spans = .ok toks :=
+  C06.tokenize_total line spans h
+
+/-- `src/edits.rs annotate` + `src/align.rs`: tokenising, filling the alignment table, reading the
+operations back and mapping them to byte ranges succeeds for every pair of lines. -/
+theorem annotate_never_panics (t : Edits.Tags) (m p : Edits.Line)
+    (hm : Edits.SpansOk m.gs.length 0 m.spans) (hp : Edits.SpansOk p.gs.length 0 p.spans) :
+    ∃ a, Edits.annotatePair t m p = .ok a := C06.annotate_total t m p hm hp
+
+/-- `src/wrapping.rs wrap_line`: terminates (with a line limit, or when the line fits, or — on the
+repaired tree — always) … -/
+theorem wrap_line_terminates (cfg : Wrap.Cfg) (line : List Wrap.Sec) (lw fill : Nat) (hint : Option Nat)
+    (h : 0 < Wrap.effMax cfg lw ∨ Wrap.Fits cfg lw line ∨ Wrap.currentFixes.stuckStop = true) :
+    ∃ o, Wrap.wrapFull cfg line lw fill hint = .ok o := C07.wrap_terminates cfg line lw fill hint h
+
+/-- … and never reaches one of its panic points (`/ line_width`, `unreachable!`, `unwrap`). -/
+theorem wrap_line_never_panics (cfg : Wrap.Cfg) (line : List Wrap.Sec) (lw fill : Nat) (hint : Option Nat)
+    (msg : String) : Wrap.wrapFull cfg line lw fill hint ≠ .error (.panic msg) :=
+  C07.wrap_never_panics cfg line lw fill hint msg
+
+/-- `src/wrapping.rs wrap_minusplus_block`: the alignment walk over wrapped rows does not hit its
+index asserts for any valid alignment. -/
+theorem wrap_block_never_panics (al : Wrap.Align) (mc pc : List Nat)
+    (hv : Wrap.ValidAlign al mc.length pc.length) : ∃ r, Wrap.wrapBlock al mc pc = .ok r :=
+  C07.aligned_rows_no_panic al mc pc hv
+
+/-- `src/ansi/iterator.rs`: on every benign line (characters, CSI/SGR sequences with at most 32
+parameters, OSC strings) the element ranges partition the line on char boundaries — what the
+slicing consumers (`strip_ansi_codes`, `measure_text_width`, `truncate_str`) rely on. -/
+theorem ansi_elements_partition {s : Ansi.Bytes} (h : Ansi.Benign s) : Ansi.isPartition s = true :=
+  C08.vte_partition h
+
+/-- `src/paint.rs superimpose_style_sections`: succeeds whenever the two sectionings spell the same
+text (the "String mismatch" panic is unreachable then). -/
+theorem superimpose_never_panics (env : Superimpose.Env) (syn : List (Superimpose.SynStyle × List Char))
+    (diff : List (Superimpose.Style × List Char)) (hpart : Superimpose.text syn = Superimpose.text diff) :
+    ∃ out, Superimpose.superimposeStyleSections env syn diff = .ok out :=
+  C15.superimpose_no_panic env syn diff hpart
+
+/-- `src/handlers/grep.rs make_style_sections`: for every line and every list of submatch offsets
+(in range or not, ordered or not) the sections are built and spell the line. -/
+theorem grep_sections_never_panic (hfix : Generated.Grep.fixSectionsGuard = true)
+    (line : Grep.Bytes) (subs : List (Nat × Nat)) :
+    ∃ secs, Grep.makeStyleSections line subs = .ok secs ∧ Grep.secsText secs = line :=
+  C16.json_sections_total hfix line subs
+
+/-- `src/handlers/blame.rs`: colour assignment over any history of blame keys never reaches
+`delta_unreachable` and gives every line a colour. -/
+theorem blame_colours_never_panic (pal : List Blame.Colour) (hpal : pal ≠ []) (hist : List Blame.Key) :
+    ∃ s ps, Blame.run pal {} (Blame.plain hist) = .ok (s, ps) ∧ ps.length = hist.length ∧
+      ∀ p ∈ ps, ∃ c, p.colour = some c := C17.run_total pal hpal hist
+
+/-- `src/features/line_numbers.rs`: numbering a hunk whose numbers fit `usize` never overflows. -/
+theorem line_numbers_never_overflow (bufSize a c : Nat) (ks : List LineNumbers.Kind)
+    (ha : a + LineNumbers.countOld ks ≤ LineNumbers.usizeMax) (hc : c + LineNumbers.countNew ks ≤ LineNumbers.usizeMax) :
+    ∃ r, LineNumbers.runUnified bufSize ⟨a, c⟩ ks = .ok r := by
+  obtain ⟨rows, h, _⟩ := C05.unified_numbers_true bufSize a c ks ha hc
+  exact ⟨_, h⟩
+
+end C03.Components
